@@ -76,6 +76,7 @@ type Sim struct {
 	driving bool
 
 	topicIDs map[[16]byte]string // learned from Metadata responses on the wire
+	wirelog  bool
 }
 
 // TopicByID resolves a topic id seen on the wire.
@@ -232,6 +233,7 @@ func Run(t *testing.T, p *plan.Plan, body func(s *Sim)) *plan.Result {
 	crand.Reader = seededReader{rand.New(rand.NewSource(int64(p.Seed ^ 0x5eed)))}
 	s := &Sim{T: t, P: p, stats: map[string]int64{}, clients: map[string]*kgo.Client{}, topicIDs: map[[16]byte]string{}}
 	s.OnResp = append(s.OnResp, s.learnTopics)
+	s.wirelog = p.Knob("wirelog", 0) != 0
 	wall := time.Now()
 	func() {
 		defer func() {
@@ -812,6 +814,9 @@ func (s *Sim) deliverReq(c *Conn, h *half, f *frame, now time.Time) {
 	}
 	for _, fn := range s.OnReq {
 		fn(wr)
+	}
+	if s.wirelog {
+		s.Logf("WIRE > %s corr=%d %s", c.Name, corr, summarize(s, wr.Req))
 	}
 	s.Count("frames.req", 1)
 	s.hashWire(uint64(s.Now()), hashStr(h.name), uint64(f.idx), uint64(len(f.data)), action)
